@@ -18,6 +18,14 @@ Spec == Init /\ [][Next]_vars
 XorLen      == Len(XorK(d, k)) = Len(d)
 XorInvolut  == XorK(XorK(d, k), k) = d
 XorIdentity == (k = <<>> \/ \A i \in 1..Len(k) : k[i] = 0) => XorK(d, k) = d
+\* position-wise: cutting the data anywhere and continuing with the key rotated by the length of the first piece gives the
+\* same bytes - i.e. the key phase is carried across any chunking (a chunk-wise xor that restarts its key is NOT XorK), and a
+\* NetBIOS encoding is the concatenation of the encodings of the pieces.  These two laws are what lets the harness check
+\* buffers of megabytes against the definition written out in Python: size adds no case to the specification.
+Rotate(s, n) == IF s = <<>> THEN s ELSE [i \in 1..Len(s) |-> s[((i - 1 + n) % Len(s)) + 1]]
+XorChunkLaw == \A c \in 0..Len(d) : XorK(d, k) = XorK(SubSeq(d, 1, c), k) \o XorK(SubSeq(d, c + 1, Len(d)), Rotate(k, c))
+XorRestartDiffers == (Len(d) >= 3 /\ Len(k) = 2 /\ k[1] # k[2]) => XorK(d, k) # XorK(SubSeq(d, 1, 1), k) \o XorK(SubSeq(d, 2, Len(d)), k)
+NbChunkLaw  == \A c \in 0..Len(d) : NbEnc(d, off) = NbEnc(SubSeq(d, 1, c), off) \o NbEnc(SubSeq(d, c + 1, Len(d)), off)
 NbRoundTrip == NbDec(NbEnc(d, off), off) = d
 NbLen       == Len(NbEnc(d, off)) = 2 * Len(d)
 PackRound   == \A w \in 1..4 : BytesLimbs(PackLE(BytesLimbs(d), Len(d))) = BytesLimbs(d)
